@@ -4856,13 +4856,49 @@ class SSHClientConnection(SSHConnection):
         self.logger.info('Creating remote TCP listener on %s',
                          (listen_host, listen_port))
 
-        pkttype, packet = await self._make_global_request(
-            b'tcpip-forward', String(listen_host), UInt32(listen_port))
+        # The server may report a connection on the new listener right
+        # behind its reply, before this task gets to run again. Make the
+        # listener known before asking, so such a connection isn't refused.
+        listener = SSHTCPClientListener[AnyStr](self, session_factory,
+                                                listen_host, listen_port,
+                                                encoding, errors,
+                                                window, max_pktsize)
+
+        dynamic = listen_port == 0
+
+        if dynamic:
+            prev_listener = self._dynamic_remote_listeners.get(listen_host)
+            self._dynamic_remote_listeners[listen_host] = listener
+        else:
+            prev_listener = self._remote_listeners.get((listen_host,
+                                                        listen_port))
+            self._remote_listeners[listen_host, listen_port] = listener
+
+        def _forget_listener() -> None:
+            """Undo the registration above"""
+
+            listeners = cast(Dict[object, SSHListener],
+                             self._dynamic_remote_listeners if dynamic
+                             else self._remote_listeners)
+            key = listen_host if dynamic else (listen_host, listen_port)
+
+            if listeners.get(key) == listener:
+                if prev_listener:
+                    listeners[key] = prev_listener
+                else:
+                    del listeners[key]
+
+        try:
+            pkttype, packet = await self._make_global_request(
+                b'tcpip-forward', String(listen_host), UInt32(listen_port))
+        except BaseException:
+            _forget_listener()
+            raise
 
         if pkttype == MSG_REQUEST_SUCCESS:
-            if listen_port == 0:
+            if dynamic:
                 listen_port = packet.get_uint32()
-                dynamic = True
+                listener.set_listen_port(listen_port)
             else:
                 # OpenSSH 6.8 introduced a bug which causes the reply
                 # to contain an extra uint32 value of 0 when non-dynamic
@@ -4871,23 +4907,15 @@ class SSHClientConnection(SSHConnection):
                 if len(packet.get_remaining_payload()) == 4: # pragma: no cover
                     packet.get_uint32()
 
-                dynamic = False
-
             packet.check_end()
-
-            listener = SSHTCPClientListener[AnyStr](self, session_factory,
-                                                    listen_host, listen_port,
-                                                    encoding, errors,
-                                                    window, max_pktsize)
 
             if dynamic:
                 self.logger.debug1('Assigning dynamic port %d', listen_port)
 
-                self._dynamic_remote_listeners[listen_host] = listener
-
             self._remote_listeners[listen_host, listen_port] = listener
             return listener
         else:
+            _forget_listener()
             packet.check_end()
             self.logger.debug1('Failed to create remote TCP listener')
             raise ChannelListenError('Failed to create remote TCP listener')
@@ -5069,18 +5097,36 @@ class SSHClientConnection(SSHConnection):
 
         self.logger.info('Creating remote UNIX listener on %s', listen_path)
 
-        pkttype, packet = await self._make_global_request(
-            b'streamlocal-forward@openssh.com', String(listen_path))
+        # As for TCP listeners, make the listener known before asking
+        listener = SSHUNIXClientListener[AnyStr](self, session_factory,
+                                                 listen_path, encoding,
+                                                 errors, window, max_pktsize)
+
+        prev_listener = self._remote_listeners.get(listen_path)
+        self._remote_listeners[listen_path] = listener
+
+        def _forget_listener() -> None:
+            """Undo the registration above"""
+
+            if self._remote_listeners.get(listen_path) == listener:
+                if prev_listener:
+                    self._remote_listeners[listen_path] = prev_listener
+                else:
+                    del self._remote_listeners[listen_path]
+
+        try:
+            pkttype, packet = await self._make_global_request(
+                b'streamlocal-forward@openssh.com', String(listen_path))
+        except BaseException:
+            _forget_listener()
+            raise
+
+        if pkttype != MSG_REQUEST_SUCCESS:
+            _forget_listener()
 
         packet.check_end()
 
         if pkttype == MSG_REQUEST_SUCCESS:
-            listener = SSHUNIXClientListener[AnyStr](self, session_factory,
-                                                     listen_path, encoding,
-                                                     errors, window,
-                                                     max_pktsize)
-
-            self._remote_listeners[listen_path] = listener
             return listener
         else:
             self.logger.debug1('Failed to create remote UNIX listener')
